@@ -9,6 +9,8 @@ R3 a child's failure propagates: each indirect serializer call's result is teste
    json_object_to_json_string_length returns text and length from the same buffer only on a non-negative result
 R4 integer text by signedness: the int emitter formats with a signed conversion under the signed tag and an unsigned one under
    the unsigned tag
+R6 the emitter's text post-processing (".0" completion, NOZERO trimming) keeps the token an RFC number of the same value, on
+   shape classes of the conversion result
 R5 a finite double is rendered through a numeric conversion: every fixed-text rendering (NaN / Infinity / -Infinity) in the double
    emitter is unreachable while the stored double is finite (exact class analysis of the branch conditions on the value)
 """
@@ -33,8 +35,9 @@ def run(chk):
     r3(chk, prog, m)
     r4(chk, prog, m)
     r5(chk, prog, m)
+    r6(chk, prog, m)
     chk.undecided_clauses += [
-        "exactness of the %.17g double text and the NOZERO trimming (value-level)",
+        "exactness of the %.17g double text itself (libc's conversion; value-level)",
         "parse(serialize(T)) == T and re-serialization identity (needs both executions)",
         "retained number text of doubles created from text; custom serializers / formats",
         "that the reported length equals the text length beyond R3 (same buffer, bpos)",
@@ -500,3 +503,184 @@ def r5(chk, prog, m):
             else:
                 chk.proven(rid, f.name, sig, c.locstr(), "reached only with %s" % ", ".join(sorted(st)), detail)
     chk.floor(rid, n, 3, "fixed-text renderings in the double emitter")
+
+
+# ---------------------------------------------------------------------------
+# R6 the NOZERO flag (and the ".0" completion) never change a double token's value
+import re as _re
+from decimal import Decimal as _Dec
+
+RFC_NUM = _re.compile(rb"-?(0|[1-9][0-9]*)(\.[0-9]+)?([eE][+-]?[0-9]+)?\Z")
+
+
+class FmtPE(pe.PE):
+    """the double emitter with snprintf's result fixed to one sample text; libc string functions are evaluated on the buffer"""
+
+    def __init__(self, prog, text, flags):
+        super().__init__(prog, max_leaves=400, max_steps=200000)
+        self.text, self.flags = text, flags
+        self.loop_widen = 1000
+        self.max_visits = 200
+
+    def should_inline(self, g, instr):
+        return False
+
+    def init_mem(self, state, base, path, t):
+        if base.startswith("@") and not path:
+            return pe.C(0)            # no custom format installed (global / thread-local pointers are NULL)
+        return pe.TOP
+
+    # -- byte-string helpers over the evaluator's memory -------------------------------------------
+    @staticmethod
+    def _at(p, k):
+        path = list(p[2])
+        if path and isinstance(path[-1], tuple) and path[-1][0] == "i" and isinstance(path[-1][1], int):
+            path[-1] = ("i", path[-1][1] + k)
+        else:
+            path.append(("i", k))
+        return ("ptr", p[1], tuple(path))
+
+    def _byte(self, state, p, k):
+        v = self.load(state, self._at(p, k), "i8")
+        return v[1] % 256 if pe.is_const(v) else None
+
+    def _cstr(self, state, p, limit=200):
+        if p[0] != "ptr":
+            return None
+        out = bytearray()
+        for k in range(limit):
+            b = self._byte(state, p, k)
+            if b is None:
+                return None
+            if b == 0:
+                return bytes(out)
+            out.append(b)
+        return None
+
+    def _write(self, state, p, data):
+        for k, b in enumerate(data):
+            self.store(state, self._at(p, k), pe.C(b if b < 128 else b - 256))
+
+    def call_model(self, state, frame, i, args):
+        nm = i.callee
+        if nm == "json_object_get_double" or nm is None:
+            return None
+        if nm == "snprintf":
+            fmt = self._cstr(state, args[2])
+            if fmt is None:
+                return None
+            if b"%" in fmt:
+                state.trace.append(("formatted",))
+                txt = self.text
+            else:
+                txt = fmt
+            self._write(state, args[0], txt + b"\0")
+            return pe.C(len(txt))
+        if nm in ("strchr",):
+            s = self._cstr(state, args[0])
+            if s is None or not pe.is_const(args[1]):
+                return None
+            k = (s + b"\0").find(bytes([args[1][1] % 256]))
+            return self._at(args[0], k) if k >= 0 else pe.C(0)
+        if nm == "strstr":
+            a, b = self._cstr(state, args[0]), self._cstr(state, args[1])
+            if a is None or b is None:
+                return None
+            k = a.find(b)
+            return self._at(args[0], k) if k >= 0 else pe.C(0)
+        if nm == "strlen":
+            s = self._cstr(state, args[0])
+            return pe.C(len(s)) if s is not None else None
+        if nm == "strcat":
+            a, b = self._cstr(state, args[0]), self._cstr(state, args[1])
+            if a is None or b is None:
+                return None
+            self._write(state, self._at(args[0], len(a)), b + b"\0")
+            return args[0]
+        if nm in ("memmove", "memcpy", "llvm.memmove.p0i8.p0i8.i64", "llvm.memcpy.p0i8.p0i8.i64"):
+            if not pe.is_const(args[2]):
+                return None
+            data = [self._byte(state, args[1], k) for k in range(args[2][1])]
+            if any(d is None for d in data):
+                return None
+            self._write(state, args[0], bytes(data))
+            return args[0]
+        if nm == "printbuf_memappend":
+            n = args[2][1] if pe.is_const(args[2]) else None
+            data = None
+            if n is not None and 0 <= n < 200:
+                bs = [self._byte(state, args[1], k) for k in range(n)]
+                data = bytes(bs) if all(b is not None for b in bs) else None
+            state.trace.append(("out", data, n))
+            return pe.C(n if n is not None else 0)
+        return None
+
+
+def _sample_texts():
+    ints = [b"5", b"0", b"50", b"500"]
+    fracs = [None, b"5", b"0", b"50", b"05", b"00", b"500", b"505"]
+    exps = [None, b"e+05", b"e+50", b"e-50", b"e+00", b"e+500", b"e-05"]
+    out = []
+    for sg in (b"", b"-"):
+        for a in ints:
+            for fr in fracs:
+                for ex in exps:
+                    if ex is not None and len(a) > 1:
+                        continue          # printf's exponent forms have one integer digit
+                    out.append(sg + a + ((b"." + fr) if fr is not None else b"") + (ex or b""))
+    return out
+
+
+def r6(chk, prog, m):
+    rid = "C02.R6"
+    chk.rule(rid, "double emitter, text post-processing: for every shape of text the numeric conversion can produce (sign x integer "
+                  "digits x fraction absent / ending in a non-zero digit / ending in one or more zeros x exponent absent / ending in "
+                  "a zero / ending in a non-zero digit, zero runs of length 0..2) and NOZERO on and off, the text handed to the buffer "
+                  "is an RFC 8259 number with exactly the value of the converted text, and its reported length is its length "
+                  "(the emitter is partially evaluated with the conversion result fixed; strchr / strstr / strcat / strlen / memmove "
+                  "are evaluated on the local buffer)")
+    f = m.functions.get("json_object_double_to_json_string_format")
+    chk.require(f is not None and not f.is_decl, "json_object_double_to_json_string_format not found")
+    chk.touched(f)
+    texts = _sample_texts()
+    n = 0
+    bad = {}
+    und = 0
+    for flags in (0, F_NOZERO, F_NOZERO | F_PRETTY | F_SPACED):
+        for txt in texts:
+            h = FmtPE(prog, txt, flags)
+            st = pe.State()
+            leaves = h.run(f, [("ptr", "jso", ()), ("ptr", "pb", ()), pe.C(0), pe.C(flags), pe.C(0)], st)
+            outs = set()
+            for lf in leaves:
+                if lf.kind != "ret" or not any(e[0] == "formatted" for e in lf.state.trace):
+                    continue
+                o = [e for e in lf.state.trace if e[0] == "out"]
+                outs.add(tuple((e[1], e[2]) for e in o))
+            n += 1
+            if len(outs) != 1:
+                und += 1
+                continue
+            (seq,) = outs
+            if len(seq) != 1 or seq[0][0] is None:
+                und += 1
+                continue
+            data, ln = seq[0]
+            ok = RFC_NUM.match(data) is not None and _Dec(data.decode()) == _Dec(txt.decode())
+            if not ok:
+                shape = (flags & F_NOZERO != 0, b"e" in txt.lower(), b"." in txt)
+                bad.setdefault(shape, (txt, data, flags))
+    for (nz, hasexp, hasdot) in sorted({(fl & F_NOZERO != 0, e, d) for fl in (0, F_NOZERO) for e in (False, True) for d in (False, True)}):
+        sig = "NOZERO %s, %s exponent, %s fraction" % ("on" if nz else "off", "with" if hasexp else "no", "with" if hasdot else "no")
+        if (nz, hasexp, hasdot) in bad:
+            txt, data, flags = bad[(nz, hasexp, hasdot)]
+            chk.refuted(rid, f.name, sig, f.entry.term.locstr(),
+                        "the conversion result %r is handed to the buffer as %r under flags %d: %s"
+                        % (txt.decode(), data.decode("latin-1"), flags,
+                           "not an RFC 8259 number" if RFC_NUM.match(data) is None else "a different value"),
+                        {"converted": txt.decode(), "emitted": data.decode("latin-1"), "flags": flags})
+        else:
+            chk.proven(rid, f.name, sig, f.entry.term.locstr(), "value and syntax preserved on every sample shape")
+    if und:
+        chk.undecided(rid, f.name, "%d evaluations" % und, f.entry.term.locstr(), "the emitted text could not be reconstructed")
+    chk.floor(rid, n, 500, "(conversion text, flags) evaluations")
